@@ -184,6 +184,48 @@ def real(f: list[str]) -> str:
         return "ok"
     if op in ("reg.reset", "reg.add"):
         return "ok"
+    if op in ("obj.cmp", "obj.copy"):
+        def make(k, s):
+            if k == "iban":
+                return IBAN(s, allow_invalid=True)
+            if k == "bic":
+                return BIC(s, allow_invalid=True)
+            if k == "str":
+                return s
+            return BBAN(unhx(k[5:]), s)
+        if op == "obj.cmp":
+            a, b = make(f[1], unhx(f[2])), make(f[3], unhx(f[4]))
+            vals = [a == b, a != b, a < b, a <= b, a > b, a >= b, hash(a) == hash(b), {a: 1}.get(b) == 1]
+            srt = sorted([a, b]) == sorted([a, b], key=str) and sorted([b, a]) == sorted([a, b], key=str)
+            return "ok " + " ".join(tf(bool(v)) for v in vals) + ("" if srt else " SORT-MISMATCH")
+        import copy
+        import pickle
+        o = make(f[1], unhx(f[2]))
+        hash(o)
+        how = f[3]
+
+        def do():
+            if how == "copy":
+                return copy.copy(o)
+            if how == "deepcopy":
+                return copy.deepcopy(o)
+            return pickle.loads(pickle.dumps(o, int(how[6:])))
+
+        def show(n):
+            if type(n) is not type(o):
+                return "WRONG-CLASS " + type(n).__name__
+            extra = ""
+            if isinstance(o, IBAN):
+                if type(n.bban) is not BBAN or str(n.bban) != str(o.bban) or \
+                        n.bban.country_code != o.bban.country_code:
+                    return "BBAN-MISMATCH"
+                if how != "copy" and n.bban is o.bban:
+                    return "BBAN-SHARED"
+            if n != o or hash(n) != hash(str(n)) or {str(n): 1}.get(n) != 1 or n.__dict__.keys() != o.__dict__.keys():
+                return "NOT-EQUAL"
+            cc = getattr(n, "country_code", None) if isinstance(o, BBAN) else None
+            return type(n).__name__ + " " + hx(str(n)) + " " + ("-" if cc is None else hx(cc))
+        return outcome(do, show)
     if op == "json.merge":
         import copy
         l, r = jdec(f[1]), jdec(f[2])
